@@ -316,6 +316,13 @@ func (o *optimizer) etaReduction() {
 		return call != nil && call.Ellipsis == token.NoPos
 	}
 
+	// $fun replaces the func lit, so it must have the very same type,
+	// not for func(int) int { return f() }, func(x int) any { return g(x) }, func(xs ...int) int { return h(xs) }
+	sameType := func(ctx astmatcher.Ctx, lit ast.Node, fun ast.Expr) bool {
+		litTy, funTy := ctx.TypeOf(lit.(ast.Expr)), ctx.TypeOf(fun)
+		return litTy != nil && funTy != nil && types.Identical(litTy, funTy)
+	}
+
 	o.m.Match(
 		pattern,
 		func(c *astmatcher.Cursor, ctx astmatcher.Ctx) {
@@ -324,7 +331,8 @@ func (o *optimizer) etaReduction() {
 			fun := ctx.Binds["fun"].(ast.Expr)
 			if matched(ctx, params, args) &&
 				ordinaryCall(c.Node()) &&
-				stableCallee(ctx, fun, false) {
+				stableCallee(ctx, fun, false) &&
+				sameType(ctx, c.Node(), fun) {
 				c.Replace(fun)
 			}
 		},
